@@ -452,6 +452,12 @@ func (s *Set) Value(_ context.Context, t *dials.Type) (reflect.Value, error) {
 			return
 		}
 
+		if fval.Kind() == reflect.Ptr && !fval.IsNil() && fval.Type().Elem().ConvertibleTo(stripTypePtr(ffield.Type())) {
+			// the flag hands out a pointer (*complex64 from the complex
+			// helpers) and the field's type is a named type of that kind
+			fval = fval.Elem()
+		}
+
 		if willOverflow(fval, ptrVal.Elem()) {
 			setErr = fmt.Errorf("value for flag %q (%s) would overflow type %s",
 				f.Name, f.Value.String(), ptrVal.Type().Elem())
